@@ -1231,7 +1231,14 @@ class Unit:
             self._emit('    ' + a)
         self._emit(sig.t.rstrip())
         safety = '%s::%s::safety' % (self.name, disp)
-        self.obligations[safety] = dict(props=props, kind='safety', fn=disp,
+        # a function that may panic (or whose loop invariants / callee preconditions no longer hold) fails every property one of
+        # its clauses serves: the safety obligation carries the union of the function's tags and its clauses' tags
+        sprops = list(props)
+        for c in ensures:
+            for q in ((c.props if isinstance(c, Clause) else (c[2] if len(c) > 2 else None)) or []):
+                if q not in sprops:
+                    sprops.append(q)
+        self.obligations[safety] = dict(props=sprops, kind='safety', fn=disp,
                                         text='no overflow / index / unwrap / panic; callee preconditions hold; loop invariants hold')
         if requires:
             self._emit('        requires')
@@ -1322,7 +1329,14 @@ class Unit:
             self.obligations[ob] = dict(props=c.props or props, kind='ensures', fn=disp, text=norm_ws(c.text)[:400])
         self._emit(indent + '{' + tail)
         safety = '%s::%s::safety' % (self.name, disp)
-        self.obligations[safety] = dict(props=props, kind='safety', fn=disp, text='initialiser preconditions hold')
+        # a function that may panic (or whose loop invariants / callee preconditions no longer hold) fails every property one of
+        # its clauses serves: the safety obligation carries the union of the function's tags and its clauses' tags
+        sprops = list(props)
+        for c in ensures:
+            for q in ((c.props if isinstance(c, Clause) else (c[2] if len(c) > 2 else None)) or []):
+                if q not in sprops:
+                    sprops.append(q)
+        self.obligations[safety] = dict(props=sprops, kind='safety', fn=disp, text='initialiser preconditions hold')
         self.fn_ranges.append((a0, len(self.lines), disp, safety))
 
     def const_guard(self, file, name, expect_norm, shim):
